@@ -189,11 +189,13 @@ pub static TRACE_OPS: AtomicBool = AtomicBool::new(false);
 static TRACE_ADDRS: Mutex<Vec<usize>> = Mutex::new(Vec::new());
 fn addr_name(a: usize) -> String { if a == 0 { return "-".into(); } let mut g = TRACE_ADDRS.lock().unwrap(); let i = match g.iter().position(|x| *x == a) { Some(i) => i, None => { g.push(a); g.len() - 1 } }; format!("A{i}") }
 
-fn install_quiet_panic_hook() {
+pub fn install_quiet_panic_hook() {
     QUIET_HOOK.call_once(|| {
         let default = panic::take_hook();
         panic::set_hook(Box::new(move |info| {
             if info.payload().is::<AbortToken>() { return; }
+            crate::props::rt::note_panic(info);
+            if std::thread::current().name().map(|n| n.starts_with("rtcase-")).unwrap_or(false) && !VERBOSE_PANICS.load(Ordering::Relaxed) { return; }
             let managed = CTX.try_with(|c| c.borrow().is_some()).unwrap_or(false);
             if managed && !VERBOSE_PANICS.load(Ordering::Relaxed) { return; }
             if crate::QUIET_ALL_PANICS.load(Ordering::Relaxed) { return; }
